@@ -166,8 +166,8 @@ CHECKS["C16"] = dict(
          "executed on the real wrappers in worker processes and validated by TLC; PFlow/TDS/EIG results are compared across "
          "{klu, umfpack, spsolve} x linsolve x ipadd x Newton variant and a fresh-process repetition must be bit-identical.",
     note=TRUSTED.replace("vh/tdsdrv.py: ranks of floats, booleans computed on floats", "vh/solverdrv.py: result classes by comparison with exact solutions")
-         + "'Solver precision' is read as the routine tolerance. numba JIT is not exercised. Known finding: EIG does not run with "
-           "the SciPy back-end.")
+         + "'Solver precision' is read as the routine tolerance. numba JIT is not exercised. EIG with the SciPy back-end "
+           "was a finding and is repaired (fix 2069be8).")
 
 CHECKS["C09"] = dict(
     engine="discrete", design_ref="DESIGN.md 4 (C09)",
@@ -179,8 +179,8 @@ CHECKS["C09"] = dict(
          "enumerated input / history (exhaustive within the bounds) is replayed on stand-alone instances of the real classes; in "
          "simulations with active limiters every stored instant is validated by TLC (inside limits, zero derivative when pegged).",
     note=TRUSTED.replace("vh/tdsdrv.py: ranks of floats, booleans computed on floats", "vh/discdrv.py stand-alone instantiation as in tests/test_discrete.py; vh/tdsdrv.observe_limits")
-         + "SortedLimiter, RateLimiter, AntiWindupRate, ShuntAdjust, time-mode Delay only through simulations. Known finding: "
-           "DeadBandRT return flags.")
+         + "SortedLimiter, RateLimiter, AntiWindupRate, ShuntAdjust, time-mode Delay only through simulations. DeadBandRT "
+           "(return flags, repaired by fix 1a5994f) is checked on every input history of length 5 over six levels.")
 
 CHECKS["C08"] = dict(
     engine="eigreduce", design_ref="DESIGN.md 4 (C08), 2.4",
@@ -206,7 +206,7 @@ CHECKS["C18"] = dict(
          "<= 3 is decided by that), that the declared initial values balance all equations for a constant input and equal the "
          "documented steady state, and that limited variants reduce to the unlimited block inside their limits.",
     note=TRUSTED.replace("vh/tdsdrv.py: ranks of floats, booleans computed on floats", "vh/blockdrv.py: exact Fraction evaluation of equation strings, exact linear solve (certificate re-checked by TLC)")
-         + "Nonlinear blocks are not covered. That generated code equals the equation strings is C02's clause.")
+         + "Nonlinear blocks (gates, piecewise, dead band, rate limits, freeze / tracking variants) are not covered as transfer functions; for the ten limited blocks the quantity each limiter watches and the documented pair of bounds are checked on a lattice with the block's own limiter objects. That generated code equals the equation strings is C02's clause.")
 
 CHECKS["C01"] = dict(
     engine="acnetwork", design_ref="DESIGN.md 4 (C01), 2.4",
@@ -283,7 +283,7 @@ CHECKS["C02"] = dict(
     note=TRUSTED.replace("vh/tdsdrv.py: ranks of floats, booleans computed on floats", "vh/eqdrv.py: the independent expression evaluator (function table "
                          "of 25 names, comparison at 1e-9 relative); vh/codegendrv.py: identification of the version from computed numbers")
          + "Points where the declared string is undefined (division by zero, root of a negative number) are not compared. Jacobian functions are "
-           "C03's concern. Byte-identical regeneration is checked in the thorough tier only (two full generations).")
+           "C03's concern. Regeneration (serial vs process pool, different hash seeds) covers 12 models in the quick tier, all in the thorough tier; files that are not byte-identical are compared functionally.")
 
 NOT_APPLICABLE = [
     {"property_id": "C07", "reason": "numeric accuracy / convergence order against closed-form and matrix-exponential references: no "
